@@ -1039,10 +1039,57 @@ class Interp(object):
         raise Unsupported('index %r' % (k,))
 
     def x_If(self, s):
-        if truth(self.ctx, self.eval(s.test)):
+        test = self.eval(s.test)
+        if isinstance(test, SBool) and not s.orelse and self._mergeable(s.body):
+            # if-conversion: a conditional that only updates local scalars with total operators is merged into
+            # ite(test, new, old) instead of forking the path (keeps bit-serial loops such as CRCs to one path)
+            c = z3.simplify(test.t)
+            if not (z3.is_true(c) or z3.is_false(c)):
+                old = {}
+                names = sorted(self._assigned_names(s.body))
+                for nm in names:
+                    if nm not in self.f.locals:
+                        old = None
+                        break
+                    old[nm] = self.f.locals[nm]
+                if old is not None and all(isinstance(v, (Sym, int)) and not isinstance(v, bool) or isinstance(v, (SBool, bool)) for v in old.values()):
+                    self.exec_block(s.body)
+                    ok = True
+                    merged = {}
+                    for nm in names:
+                        try:
+                            merged[nm] = _ite_value(SBool(c), self.f.locals[nm], old[nm])
+                        except Unsupported:
+                            ok = False
+                            break
+                    if ok:
+                        self.f.locals.update(merged)
+                        return
+                    self.f.locals.update(old)
+        if truth(self.ctx, test):
             self.exec_block(s.body)
         else:
             self.exec_block(s.orelse)
+
+    _TOTAL_OPS = (ast.BitXor, ast.BitOr, ast.BitAnd, ast.Add, ast.Sub, ast.Mult, ast.LShift)
+
+    def _mergeable(self, body):
+        def expr_ok(e):
+            if isinstance(e, (ast.Name, ast.Constant)):
+                return True
+            if isinstance(e, ast.BinOp):
+                return isinstance(e.op, self._TOTAL_OPS) and expr_ok(e.left) and expr_ok(e.right)
+            return False
+        for st in body:
+            if isinstance(st, ast.AugAssign):
+                if not (isinstance(st.target, ast.Name) and isinstance(st.op, self._TOTAL_OPS) and expr_ok(st.value)):
+                    return False
+            elif isinstance(st, ast.Assign):
+                if not (len(st.targets) == 1 and isinstance(st.targets[0], ast.Name) and expr_ok(st.value)):
+                    return False
+            else:
+                return False
+        return True
 
     def _loop_ordinal(self, node):
         # ordinal of this loop among the loops of the enclosing function, in source order
@@ -1188,6 +1235,8 @@ class Interp(object):
     def _for_with_invariant(self, s, it, spec):
         inv, havoc, decreases = spec[:3]
         tag = '%s/loop@%d' % (self.f.fname, loop_ordinal(self.f, s))
+        if isinstance(it, range):
+            it = SymRange(it.start, it.stop, it.step)
         if isinstance(it, SymRange) and it.step != 1:
             # iterations are counted by _i: the loop variable is lo + step*_i, running while that is < hi
             st = it.step
@@ -1867,6 +1916,15 @@ class Interp(object):
         v = self.eval(e.value)
         self.assign(e.target, v)
         return v
+
+
+def _ite_value(c, a, b):
+    if isinstance(a, sym.SLow) or isinstance(b, sym.SLow):
+        W = (a if isinstance(a, sym.SLow) else b).t.size()
+        x, y = sym.SLow.of(a, W), sym.SLow.of(b, W)
+        ub = max(x.ub, y.ub) if (x.ub is not None and y.ub is not None) else None
+        return sym.SLow(z3.If(c.t, x.t, y.t), ub)
+    return sym.ite(c, a, b)
 
 
 _SEQS = (SBytes, SStr, SSeq)
